@@ -324,7 +324,7 @@ def check_cfg(ctx, fx, cfg):
         inst = "%s:%s@%s" % (kind, cf["def"], cfg)
         if kind == "forcing":
             b = ctx.body(fx, cf)
-            n = nfa.build(b, A)
+            n = nfa.build(b, A, fx)
             viols, ps = nfa.check(n, EnqueueOnce(False))
             ctx.count_nfa(n.stats(), ps)
             for v in viols:
@@ -345,7 +345,7 @@ def check_cfg(ctx, fx, cfg):
             ctx.require(returned and not spawned, "R01.3", inst + ":returns-its-future", "the waiting closure must return the enqueueing future to the caller (not spawn / drop it): sinks %s" % [(s["k"], s.get("t", {}).get("callee")) for s in sk], fn=cf["def"], site=st.get("l"))
             co = fx.fn(st["r"]["def"])
             cb = ctx.body(fx, co)
-            n = nfa.build(cb, A)
+            n = nfa.build(cb, A, fx)
             viols, ps = nfa.check(n, EnqueueOnce(True))
             ctx.count_nfa(n.stats(), ps)
             for v in viols:
